@@ -1486,8 +1486,10 @@ fn has_duplicate_key(keys: &Vec<KeyCode>) -> (r: bool)
 //@ C14 | default: fn check_mapping_is_usable
 fn check_mapping_is_usable(sm: &s::Mapping) -> (r: Result<(), String>)
   ensures
-    //@ C14 | a mapping that passes the check satisfies the precondition of Mapper::for_layout (and of the event loop's timer arithmetic)
-    r is Ok ==> crate::keys::mapping_ok(*sm),
+    //@ C14 | a mapping that passes the check satisfies the precondition of Mapper::for_layout: a non-empty trigger, no key twice in the trigger or in the output
+    r is Ok ==> sm.from@.len() >= 1 && sm.from@.no_duplicates() && sm.to@.no_duplicates(),
+    //@ C11 | ... and its repeat values are what the event loop's timer arithmetic requires: non-negative milliseconds, no key twice in the chord
+    r is Ok ==> crate::keys::repeat_ok(sm.repeat),
 { //@ | body
   proof { axiom_fmt_user_types(); }
   broadcast use vstd::std_specs::fmt::group_fmt_axioms;
